@@ -80,6 +80,17 @@ def handleGraph : Sexp → Option Sexp
     some (pyResult (fun (r : Prog × List Expr × List Expr) =>
       .list [.atom "res", r.1.toSexp, .list (r.2.1.map Expr.toSexp ++ r.2.2.map Expr.toSexp)])
       (connectedCrossable f sc pr (Frame.numVars H W)))
+  | .list [.atom "crossable2", h, w, sc, prim, b0, extra, neg] => do
+    -- frame allocated after `b0` caller variables, `extra` more caller variables after it, entries negated when `neg`
+    let H ← h.toNat?; let W ← w.toNat?
+    let sc ← sc.toBool?; let pr ← prim.toBool?
+    let b0 ← b0.toNat?; let extra ← extra.toNat?; let neg ← neg.toBool?
+    let f0 := Frame.fresh b0 H W
+    let ng (a : Arr2) : Arr2 := { a with data := a.data.map fun e => Expr.node .not [e] }
+    let f : Frame := if neg then { f0 with horizontal := ng f0.horizontal, vertical := ng f0.vertical } else f0
+    some (pyResult (fun (r : Prog × List Expr × List Expr) =>
+      .list [.atom "res", r.1.toSexp, .list (r.2.1.map Expr.toSexp ++ r.2.2.map Expr.toSexp)])
+      (connectedCrossable f sc pr (b0 + Frame.numVars H W + extra)))
   | .list [.atom "vgborders_frame", h, w, gs, prim] => do
     -- division_connected_variable_groups_with_borders(group_size=IntArray2D, is_border=BoolInnerGridFrame): the caller's
     -- h*w size variables come first, then the inner frame's variables, then the auxiliaries
